@@ -77,6 +77,27 @@ pub fn run(op: &str, args: &[String]) -> Option<String> {
                 Err(_) => "ERR".into(),
             }
         }
+        "script.routes" => {
+            let bs = match arg_bytes(args, 0) {
+                Some(b) => b,
+                None => return Some("BADARG".into()),
+            };
+            match Script::from_bytes(&bs) {
+                Ok(s) => {
+                    let ser = s.to_bytes();
+                    let hex_ok = s.to_hex() == hex::encode(&ser);
+                    let from_hex_ok = match Script::from_hex(&hex::encode(&bs)) {
+                        Ok(s2) => s2 == s && s2.to_bytes() == ser,
+                        Err(_) => false,
+                    };
+                    let rebuilt = Script::from_script_bits(s.to_script_bits());
+                    let rebuilt_ok = rebuilt.to_bytes() == ser && rebuilt.get_script_length() == s.get_script_length();
+                    let b = |x: bool| if x { '1' } else { '0' };
+                    format!("OK:{};{}{}{}", s.get_script_length(), b(hex_ok), b(from_hex_ok), b(rebuilt_ok))
+                }
+                Err(_) => "ERR".into(),
+            }
+        }
         "script.encode_pushdata" => {
             let bs = match arg_bytes(args, 0) {
                 Some(b) => b,
